@@ -3,13 +3,14 @@ CONSTANTS
   Kind = "bind"
   CtxSet = {"mixin"}
   MaxParams = 3
-  DefSet = {"req", "const", "ref1", "ref2", "glob"}
+  DefSet = {"req", "const", "ref2", "next"}
   RestSet = {0, 1}
-  MaxPos = 4
+  MaxPos = 3
   NamedPool = {"a", "b_x", "c", "z"}
-  MaxNamed = 3
+  MaxNamed = 2
+  MapPool = {"a", "c"}
+  MaxMap = 1
   PSplats = {"none", "all"}
-  NSplats = {"none", "all"}
   ItemSet = {}
   MaxItems = 0
 INVARIANTS LawHolds LawWellFormed Emit
